@@ -36,9 +36,19 @@ pub const POOL_UTF8_EDGES: &[char] = &[
     'ส', 'न', '\u{0e33}', '\u{0903}',
 ];
 
+/// Characters whose scalar value ends in the byte (or, beyond the BMP, the 16 bits) of a format
+/// symbol or control code: NUL, LF, CR, space, '-', '/', '\\', '|' - what a truncating cast of a
+/// character turns into a delimiter.
+pub const POOL_LOW_BYTE: &[char] = &[
+    '一', '上', '不', '丠', '中', '丯', '乜', '乼', 'ぜ', 'ぼ', '頭', '〠', '\u{100}', '\u{10a}', '\u{10d}', '\u{120}',
+    '\u{12d}', '\u{12f}', '\u{15c}', '\u{17c}', '\u{1002f}', '\u{1005c}', '\u{10020}', '\u{1002d}', '\u{1007c}',
+    '\u{1000a}', '\u{10000}',
+];
+
 pub const POOLS: &[&[char]] = &[
     POOL_ASCII,
     POOL_UTF8_EDGES,
+    POOL_LOW_BYTE,
     POOL_2B,
     POOL_HIRA,
     POOL_KATA,
@@ -488,7 +498,9 @@ pub fn resolve_model(raw: &RawModel) -> ModelCase {
             }
         }
         let word: String = cs.iter().collect();
-        if dict.iter().any(|d| d.word == word) {
+        // the same word twice (homographs that differ in the comment) is a legal dictionary: both
+        // records contribute; one duplicate in four is kept
+        if dict.iter().any(|d| d.word == word) && w.weights[1] & 3 != 0 {
             continue;
         }
         dict.push(WordSpec {
@@ -650,7 +662,7 @@ pub struct RawSentence {
 pub const TAG_POOL: &[&str] = &[
     "N", "名詞", "N-x", "a/b", "x y", "A|B", "b\\c", "\\", "/", "-", "|", " ", "カセー", "𠀋", "é",
     "動詞-自立", "t", "/ /", "--", "a\\/b", "\\\\", "助詞", "ヨイ", "0", "名詞\u{3000}一般", "a\tb", "x\u{a0}y", "l\nm",
-    "\u{2028}", "q\r", "\u{85}z",
+    "\u{2028}", "q\r", "\u{85}z", "接頭辞", "ぼく", "中", "ぜ", "丯丠", "上不", "\u{1002f}", "\u{15c}\u{17c}",
 ];
 
 pub fn raw_sentence(max_len: usize, label_kinds: u8) -> impl Strategy<Value = RawSentence> {
